@@ -75,6 +75,18 @@ def _tokens(tree: ast.Module, m: Mini):
             elif isinstance(c, (ast.Attribute, ast.Name)):
                 funcs.append((ast.unparse(c), val(c)))
 
+    # module-level tables of targets / classes (``_PROPAGATING = (F.relu, torch.add, ...)``)
+    for st in tree.body:
+        v = getattr(st, 'value', None) if isinstance(st, (ast.Assign, ast.AnnAssign)) else None
+        if isinstance(v, (ast.Tuple, ast.List, ast.Set)):
+            for c in v.elts:
+                if isinstance(c, ast.Constant) and isinstance(c.value, str):
+                    meths.append((repr(c.value), c.value))
+                elif isinstance(c, (ast.Attribute, ast.Name)):
+                    txt = ast.unparse(c)
+                    last = txt.rsplit('.', 1)[-1]
+                    (mods if last[:1].isupper() else funcs).append((txt, val(c)))
+
     def uniq(xs):
         out, seen = [], set()
         for k, v in xs:
@@ -126,6 +138,20 @@ def classify(repo: Repo, preds: List[str], module: str = 'plinio.graph.inspectio
             return call
         for name in fdefs:
             glob[name] = make(name)
+        # module-level constant tables, in source order
+        for st in mod.tree.body:
+            tgt = None
+            if isinstance(st, ast.Assign) and len(st.targets) == 1 and \
+                    isinstance(st.targets[0], ast.Name):
+                tgt = st.targets[0].id
+            elif isinstance(st, ast.AnnAssign) and isinstance(st.target, ast.Name) and \
+                    st.value is not None:
+                tgt = st.target.id
+            if tgt is not None:
+                try:
+                    glob[tgt] = _M(glob, w).expr(st.value, {})
+                except (Unsupported, Raised):
+                    pass
         # the argument accessor of graph/utils.py is interpreted on the node's real args /
         # kwargs (so that "positional only" / "keyword only" look-ups are told apart); the
         # stub is the fallback when it is not interpretable
